@@ -2,6 +2,8 @@
 import SmrtVerif.Model.Dort
 import SmrtVerif.Model.Streams
 import SmrtVerif.Model.Eigen
+import SmrtVerif.Model.Atmosphere
+import SmrtVerif.Model.Split
 import SmrtVerif.Driver.C20
 
 namespace Smrt.Driver.DortD
@@ -66,6 +68,28 @@ def handle : List String → String
     let e := if parts.contains 'e' then
       (rng (S.nAir * S.npol)).flatMap fun i => (rng S.nvec).map fun v => showF (emerging S x i v) else []
     s!"{N} | " ++ " ".intercalate A ++ " | " ++ " ".intercalate b ++ " | " ++ " ".intercalate e
+  | "lhs" :: r =>
+    -- block-form products: for the given vector x (flat, N × nvec) the left-hand side of every row, in row order
+    let (S, r) := parseStack r
+    let N := nUnknown S
+    let (xv, _) := takeF (N * S.nvec) r
+    let xb : Nat → Nat → Nat → F := fun l j v => at2 xv S.nvec (off S l + j) v
+    let rows := (rng S.L).flatMap fun l =>
+      let nl := (S.lay l).n * S.npol
+      ((rng nl).flatMap fun i => (rng S.nvec).map fun v => showF (lhsTop S xb l i v)) ++
+      ((rng nl).flatMap fun i => (rng S.nvec).map fun v => showF (lhsBot S xb l i v))
+    " ".intercalate rows
+  | "splitsol" :: ks :: d1s :: d2s :: r =>
+    -- the solution of the split system constructed from a solution x of the given (unsplit) stack, flattened
+    let (S, r) := parseStack r
+    let N := nUnknown S
+    let (xv, _) := takeF (N * S.nvec) r
+    let xb : Nat → Nat → Nat → F := fun l j v => at2 xv S.nvec (off S l + j) v
+    let k := nat ks
+    let S' := splitStack S k (fl d1s) (fl d2s)
+    let x' := splitSol S k (fl d1s) (fl d2s) xb
+    " ".intercalate ((rng S'.L).flatMap fun l =>
+      (rng (2 * ((S'.lay l).n * S'.npol))).flatMap fun j => (rng S.nvec).map fun v => showF (x' l j v))
   | "buildA" :: nps :: nss :: m0 :: nm :: r =>
     -- nm: 0 = no normalisation, 1 = mode-0 normalisation from ks, 2 = higher mode, norm_0 vector given
     let (npol, ns) := (nat nps, nat nss)
@@ -85,6 +109,20 @@ def handle : List String → String
     let flag := if nm == "1" && Eigen.normOutOfRange N nrm then "out" else "in"
     flag ++ " " ++ " ".intercalate ((rng N).flatMap fun i => (rng N).map fun j => showF (Eigen.matrixA npol ns coef mu w P ke nrm i j))
       ++ " | " ++ " ".intercalate ((rng N).map fun i => showF (Eigen.trivialBeta npol ns mu ke i))
+  | "atm_simple" :: nps :: ns :: ks :: r =>
+    -- npol, n nodes, k stream cosines; xp fp(tbdown) fp(tbup) fp(trans) costheta I(k*npol)
+    let (npol, n, k) := (nat nps, nat ns, nat ks)
+    let v := floats r
+    let xp := arr (v.extract 0 n)
+    let fd := arr (v.extract n (2*n)); let fu := arr (v.extract (2*n) (3*n)); let ft := arr (v.extract (3*n) (4*n))
+    let ct := arr (v.extract (4*n) (4*n+k))
+    let I := arr (v.extract (4*n+k) (4*n+k+k*npol))
+    let down := Atmosphere.simpleRun npol n xp fd ct
+    let up := Atmosphere.simpleRun npol n xp fu ct
+    let tr := Atmosphere.simpleRun npol n xp ft ct
+    let out := Atmosphere.compose up tr I
+    " ".intercalate ((rng (k*npol)).map fun i => showF (down i)) ++ " | " ++
+    " ".intercalate ((rng (k*npol)).map fun i => showF (out i))
   | "streams" :: ns :: Ls :: hs :: r =>
     let (n, L) := (nat ns, nat Ls)
     let v := floats r
